@@ -360,15 +360,15 @@ func c05Conf(root, p, a, b string) string {
 
 // limit layouts: "kind name memory applications" separated by ';' (kind u|g, '-' = not set)
 var c05Layouts = []string{
-	c05Conf("", "", "", ""),                          // 0 no limits
-	c05Conf("", "", "u u1 2 1", ""),                  // 1 named user on the leaf
-	c05Conf("", "u * 3 -", "u u1 2 -", ""),           // 2 wildcard on the parent, named on the leaf
-	c05Conf("", "g g1 3 2", "", ""),                  // 3 named group on the parent
-	c05Conf("", "g g1 2 -;g * 4 -", "", ""),          // 4 named + wildcard group
-	c05Conf("u * - 1", "", "", ""),                   // 5 wildcard user application limit on the root
-	c05Conf("", "", "u u1 2 -;u * 1 -", "u * 1 -"),   // 6 named and wildcard on the same leaf
-	c05Conf("", "", "u * 1 -", "u * 1 -"),            // 7 layout 6 with the named limit dropped
-	c05Conf("u u1 4 -", "u u1 3 -", "", "g g2 1 -"),  // 8 named user on two levels, group on the other leaf
+	c05Conf("", "", "", ""),                         // 0 no limits
+	c05Conf("", "", "u u1 2 1", ""),                 // 1 named user on the leaf
+	c05Conf("", "u * 3 -", "u u1 2 -", ""),          // 2 wildcard on the parent, named on the leaf
+	c05Conf("", "g g1 3 2", "", ""),                 // 3 named group on the parent
+	c05Conf("", "g g1 2 -;g * 4 -", "", ""),         // 4 named + wildcard group
+	c05Conf("u * - 1", "", "", ""),                  // 5 wildcard user application limit on the root
+	c05Conf("", "", "u u1 2 -;u * 1 -", "u * 1 -"),  // 6 named and wildcard on the same leaf
+	c05Conf("", "", "u * 1 -", "u * 1 -"),           // 7 layout 6 with the named limit dropped
+	c05Conf("u u1 4 -", "u u1 3 -", "", "g g2 1 -"), // 8 named user on two levels, group on the other leaf
 }
 
 // a reservation made while the user quota allowed the ask; the user's usage then grows through an RM-placed allocation
